@@ -40,6 +40,7 @@ FIXED = [
  ("C11", "F12", "replays/C11-F12-incidence-1xm.json"), ("C11", "F11", "replays/C11-F11-hif-sc-net-attrs.json"),
  ("C16", "F13", "replays/C16-F13-hsbm-p1.json"),
  ("C17", "F14", "replays/C17-F14-spectral.json"),
+ ("C18", "F15", "replays/C18-F15-clear_edges.json"), ("C18", "F15", "replays/C18-F15-dh-add_node_to_edge.json"),
  ("C04", "F5a", "replays/C04-F5a-idx0.json"), ("C04", "F5b", "replays/C04-F5b-bulk-desc.json"),
  ("C04", "F5c", "replays/C04-F5c-df.json"), ("C04", "F5c", "replays/C04-F5c-dh-bipartite.json"),
 ]
